@@ -147,6 +147,8 @@ def polling_case(rng, seed, prog, plan):
         # fault 'eager poller' (see simrun.Runner._eager)
         case["sched"]["eager"] = [rng.choice([0.5, 0.01]),
                        rng.choice([0, 1, 2, 3, 4, 6, 8, 10, 12, 15, 20, 25, 30, 40, 60])]
+    if rng.random() < 0.15:
+        case["sched"]["opcodes"] = True      # pre-emption between bytecodes of simulator.py
     return case
 
 
